@@ -451,7 +451,11 @@ func NewSecurityManager() *SecurityManager {
 
 // ClientHandshake performs a client-side security handshake on the given stream
 func (sm *SecurityManager) ClientHandshake(ctx context.Context, s *stream.Stream) error {
-	auth := NewAuthenticator(sm.config, s)
+	// The handshake mutates the config it is given (NewAuthenticator stores this
+	// connection's ephemeral ECDH public key in it), so give each handshake a
+	// private shallow copy: one SecurityManager may serve concurrent handshakes.
+	cfg := *sm.config
+	auth := NewAuthenticator(&cfg, s)
 	_, err := auth.ClientHandshake(ctx)
 	if err != nil {
 		return err
@@ -463,7 +467,9 @@ func (sm *SecurityManager) ClientHandshake(ctx context.Context, s *stream.Stream
 
 // ServerHandshake performs a server-side security handshake on the given stream
 func (sm *SecurityManager) ServerHandshake(ctx context.Context, s *stream.Stream) error {
-	auth := NewAuthenticator(sm.config, s)
+	// Per-handshake copy of the shared config (see ClientHandshake).
+	cfg := *sm.config
+	auth := NewAuthenticator(&cfg, s)
 	_, err := auth.ServerHandshake(ctx)
 	if err != nil {
 		return err
